@@ -43,7 +43,7 @@ def reclaim_after_unlink(ctx, file_suffixes, rid="K4.reclaim-after-unlink"):
     facts = ctx.facts
     n_sites = 0
     for fn in facts.fns:
-        if "/reclamation/" in fn.file:
+        if "/reclamation/" in fn.file or fn.inlined_helper:
             continue
         if not any(s in fn.file for s in file_suffixes):
             continue
